@@ -472,7 +472,7 @@ def unalias(e: ast.expr, al: Dict[str, ast.expr]) -> ast.expr:
     return _Unalias(al).visit(_c.deepcopy(e))
 
 
-def expand_locals(fi, e, depth: int = 3):
+def expand_locals(fi, e, depth: int = 3, keep=()):
     """the expression with every local name that has exactly one definition replaced by that definition (a few levels)"""
     import copy
 
@@ -483,7 +483,7 @@ def expand_locals(fi, e, depth: int = 3):
 
     class T(ast.NodeTransformer):
         def visit_Name(self, n):
-            if isinstance(n.ctx, ast.Load) and len(defs.get(n.id, [])) == 1 and n.id not in fi.params:
+            if isinstance(n.ctx, ast.Load) and len(defs.get(n.id, [])) == 1 and n.id not in fi.params and n.id not in keep:
                 return copy.deepcopy(defs[n.id][0])
             return n
 
